@@ -1,7 +1,7 @@
 (* C06 — Bandwidth quota is conserved: sharing moves it, usage only consumes it.
    Statements only; proofs are in Proofs/Quota.v and Proofs/QuotaSum.v. *)
 From Hub Require Import Base.Prelude Base.Arith Model.Types Model.Keeper Model.Handlers Model.Hooks Model.Step.
-From Hub Require Import Proofs.Tactics Proofs.Frames Proofs.KeysInv Proofs.Lifecycle Proofs.Quota Proofs.InvDefs Proofs.QuotaSum.
+From Hub Require Import Proofs.Tactics Proofs.Frames Proofs.KeysInv Proofs.Lifecycle Proofs.Quota Proofs.InvDefs Proofs.QuotaSum Proofs.Link Proofs.UsageCause.
 
 (* For every allocation 0 <= used <= granted, at every point of every history from genesis
    (after every transaction and every block hook). *)
@@ -24,6 +24,15 @@ Theorem C06_usage_only_by_own_settlement : forall s e s' x,
     al_granted al' = al_granted al /\ al_used al <= al_used al' /\
     (al_used al < al_used al' -> k = (ss_sub x, ss_addr x) /\ ss_status x = SPending /\ al_used al' <= al_used al + (ss_up x + ss_down x)).
 Proof. exact settlement_usage. Qed.
+
+(* ... and across one WHOLE operation of any kind (any transaction -- the usage report itself included --, either block
+   hook with all its loop iterations, governance): the used bytes of a stored allocation never decrease, and they
+   can grow only in the end-blocker, where the theorem above names the settled session iteration by iteration. *)
+Theorem C06_usage_grows_only_in_end_block : forall k s o s' al al',
+  life_inv s -> quota_inv s -> step s o = OOk s' ->
+  allocs s !! k = Some al -> allocs s' !! k = Some al' ->
+  al_used al <= al_used al' /\ (o <> OEnd -> al_used al' = al_used al).
+Proof. exact usage_grows_only_in_end_block. Qed.
 
 (* Sharing quota with another address moves it but never creates or destroys it: the granted
    bytes of every subscription add up to the same total before and after an accepted MsgAllocate,
@@ -95,3 +104,4 @@ Print Assumptions C06_allocate_effect.
 Print Assumptions C06_exhausted_cannot_start.
 Print Assumptions C06_granted_sum_is_bought.
 Print Assumptions C06_sum_invariant_inductive.
+Print Assumptions C06_usage_grows_only_in_end_block.
